@@ -3,6 +3,9 @@ package verifharness
 import (
 	"bytes"
 	"fmt"
+	"os"
+	"path/filepath"
+	"regexp"
 	"strconv"
 	"strings"
 	"testing"
@@ -38,6 +41,14 @@ type C07Scenario struct {
 	// Color: terminal colours on; the oracle reads the output with the ANSI
 	// escape sequences removed
 	Color bool `json:"color,omitempty"`
+	// Unknown: indices of servers whose host key is missing from known_hosts: the
+	// client prompts (the scripted user answers "y") while the other servers'
+	// records arrive - the stdout logger is paused and resumed in mid-stream
+	Unknown []int `json:"unknown,omitempty"`
+	// Decoys: paths matched by the glob that must not be served (directories
+	// whose names sort between the files) - the source ids and running numbers
+	// of the files after them must not shift
+	Decoys []string `json:"decoys,omitempty"`
 	// LogLevel of the client: its own diagnostics share the output stream (and
 	// the pooled string builders) with the records
 	LogLevel string `json:"log_level,omitempty"`
@@ -118,6 +129,16 @@ func c07Gen(r *Rand, tier string, i int) Scenario {
 			break
 		}
 	}
+	if layout != 3 && r.Bool(0.25) {
+		switch layout {
+		case 0:
+			sc.Decoys = []string{"dir0x/app.log"}
+		case 1:
+			sc.Decoys = []string{"logs/file0x.log", "logs/a-first.log"}
+		default:
+			sc.Decoys = []string{"d0/f0x.log"}
+		}
+	}
 	if r.Bool(0.25) {
 		// compressed sources: several decompressors run at once in one server
 		sc.Compress = PickOf(r, "gz", "gz", "zst")
@@ -141,6 +162,18 @@ func c07Gen(r *Rand, tier string, i int) Scenario {
 		}
 	}
 	sc.Color = r.Bool(0.3)
+	// NOT generated (kept for manual experiments): while the client prompts, the
+	// stdout logger's log() waits on a channel with its sync.Mutex locked, and the
+	// other connections' goroutines block on that mutex. A goroutine blocked on a
+	// sync.Mutex is not "durably blocked" for testing/synctest, so the bubble never
+	// becomes quiescent and the controller cannot run (watchdog, exit 2). DESIGN §7.
+	if false && nh > 1 && r.Bool(0.2) {
+		for h := 1; h < nh; h++ { // server 0 always stays known
+			if r.Bool(0.5) {
+				sc.Unknown = append(sc.Unknown, h)
+			}
+		}
+	}
 	sc.LogLevel = PickOf(r, "", "", "debug", "trace")
 	if r.Bool(0.3) {
 		sc.Stalls = append(sc.Stalls, StallSpec{Name: "consumer.uniform", Site: siteStdoutLock, Suffix: "/lock", From: 0, To: -1, DurMs: 1})
@@ -159,11 +192,48 @@ func c07Run(t *testing.T, s Scenario, src verifsim.DecisionSource, keep bool) *R
 		for i, f := range sc.Files {
 			w.WriteFile(f.Path, compress(sc.Compress, sc.content(i)))
 		}
+		for _, d := range sc.Decoys {
+			if sc.Compress != "" {
+				d += "." + sc.Compress
+			}
+			must(os.MkdirAll(w.Data(d), 0755))
+		}
 		spec := ReadSpec{Kind: sc.Kind, Transport: "ssh", Hosts: sc.Hosts, Plain: false, NoColor: !sc.Color, LogLevel: sc.LogLevel, Files: []string{sc.Glob}}
 		if sc.Kind == "grep" {
 			spec.Regex = "^S:"
 		}
 		keyPath := w.StartSSHWorld(sc.Hosts, sc.Cfg, nil)
+		if len(sc.Unknown) > 0 {
+			spec.AskHosts = true
+			khPath := filepath.Join(w.Dir, "home", ".ssh", "known_hosts")
+			kh, err := os.ReadFile(khPath)
+			must(err)
+			var keep []string
+			for _, ln := range strings.Split(strings.TrimSuffix(string(kh), "\n"), "\n") {
+				drop := false
+				for _, u := range sc.Unknown {
+					if strings.HasPrefix(ln, fmt.Sprintf("[%s]:", sc.Hosts[u])) || strings.HasPrefix(ln, fmt.Sprintf("[10.0.0.%d]:", u+1)) {
+						drop = true
+					}
+				}
+				if !drop {
+					keep = append(keep, ln)
+				}
+			}
+			must(os.WriteFile(khPath, []byte(strings.Join(keep, "\n")+"\n"), 0600))
+			// the scripted user: "y" to every prompt (one answer per 4096-byte line, see c17.go)
+			var in bytes.Buffer
+			for k := 0; k < 8; k++ {
+				in.WriteString("y" + strings.Repeat(" ", 4094) + "\n")
+			}
+			inPath := filepath.Join(w.Dir, "stdin-c07")
+			must(os.WriteFile(inPath, in.Bytes(), 0600))
+			f, err := os.Open(inPath)
+			must(err)
+			oldStdin := os.Stdin
+			os.Stdin = f
+			defer func() { os.Stdin = oldStdin; f.Close() }()
+		}
 		proc = w.MakeReadClient(spec, keyPath)
 		w.RunClient(proc, true)
 		stdout = w.Stdout(proc.StdoutCut)
@@ -194,6 +264,9 @@ func c07Run(t *testing.T, s Scenario, src verifsim.DecisionSource, keep bool) *R
 	if sc.Color {
 		stdout = sgrRe.ReplaceAll(stdout, nil)
 	}
+	if len(sc.Unknown) > 0 {
+		stdout = c07PromptRe.ReplaceAll(stdout, nil)
+	}
 	if cls, msg := c07Oracle(sc, stdout); cls != "" {
 		res.Class, res.Message = cls, msg
 		return res
@@ -203,6 +276,10 @@ func c07Run(t *testing.T, s Scenario, src verifsim.DecisionSource, keep bool) *R
 	}
 	return res
 }
+
+// the host-key prompt (question without a final newline; the scripted user's
+// answer is not echoed)
+var c07PromptRe = regexp.MustCompile(`Encountered \d+ unknown hosts: '[^']*'\nDo you want to trust these hosts\?\? \([^)]*\): `)
 
 func c07Oracle(sc *C07Scenario, stdout []byte) (string, string) {
 	type key struct {
@@ -354,6 +431,16 @@ func c07Shrink(s Scenario) []Scenario {
 	if sc.LogLevel != "" {
 		n := cl()
 		n.LogLevel = ""
+		out = append(out, n)
+	}
+	if len(sc.Decoys) > 0 {
+		n := cl()
+		n.Decoys = nil
+		out = append(out, n)
+	}
+	if len(sc.Unknown) > 0 {
+		n := cl()
+		n.Unknown = nil
 		out = append(out, n)
 	}
 	n3 := cl()
